@@ -1,6 +1,7 @@
 import LassoProofs.C06
 import LassoProofs.Lemmas.Grow
 import LassoProofs.C12
+import LassoProofs.Lemmas.Config
 /-
   C04 — memory safety: no history of safe calls corrupts, leaks or escapes the arena.
 
@@ -117,5 +118,12 @@ theorem growth_logic_is_source :
       (Grow.eval (a.env s) Extracted.lockfreeGrow).map (a.applyOutcome s) = some (a.grow s)) ∧
     Extracted.arenaAllocateIsCheckThenAdd = true :=
   ⟨arena_store_is_source_tree, larena_grow_is_source_tree, arena_allocate_shape⟩
+
+/-- The code this file's theorems are about is the same under every feature configuration: the regenerated
+census of conditional compilation contains import blocks, whole serde impls, optional-dependency impls and
+module declarations only, and no gate inside any function body (`Lemmas/Config.lean`). -/
+theorem same_code_under_every_feature_configuration :
+    (Extracted.cfgGates.all fun g => g.kind != .other) = true ∧ Extracted.bodyGates.isEmpty = true :=
+  Lasso.one_code_base_for_all_configurations
 
 end Lasso.C04
